@@ -13,8 +13,8 @@ def random_history(rng, nops, append_pct):
         if k < append_pct:
             kind = rng.below(4)
             if kind == 0:
-                w = rng.choice([1, 2, 4, 8])
-                ops.append({"op": "append", "v": rng.scalar(w)})
+                w = rng.choice([1, 2, 4, 8, 1, 2, 4, 8, 3, 5, 6, 12, 16])      # integers and other plain-old-data sizes
+                ops.append({"op": "append", "v": rng.scalar(w) if w in (1, 2, 4, 8) else rng.bytes(w)})
                 length += w
             elif kind == 1:
                 n = rng.choice([0, 0, 1, 2, 3, 5, 16, rng.below(40)])
@@ -30,7 +30,7 @@ def random_history(rng, nops, append_pct):
                 length += n
         elif k < 97:
             typed = rng.chance(2, 3)
-            w = rng.choice([1, 2, 4, 8]) if typed else rng.choice([0, 1, 3, 5, 9, 36, rng.below(48)])
+            w = rng.choice([1, 2, 4, 8, 1, 2, 4, 8, 3, 5, 6, 12, 16]) if typed else rng.choice([0, 1, 3, 5, 9, 36, rng.below(48)])
             where = rng.below(10)
             if where == 0:
                 off = rng.choice([0, 3, 4, 5, 7, 8, 9, 10, 35, 36])       # header, Length field, checksum byte
@@ -43,7 +43,7 @@ def random_history(rng, nops, append_pct):
             else:
                 off = rng.below(length + 1)
             off = max(0, off)
-            op = {"op": "write" if typed else "write_bytes", "v": rng.scalar(w) if typed else rng.bytes(w), "off": off}
+            op = {"op": "write" if typed else "write_bytes", "v": rng.scalar(w) if typed and w in (1, 2, 4, 8) else rng.bytes(w), "off": off}
             if typed and rng.chance(1, 2):
                 op["generic"] = True
             if rng.chance(1, 60):
@@ -87,6 +87,9 @@ def run(ctx):
         programs.append(random_history(rng, 5000 if th else 1000, 4 if th else 10))
     short = [random_history(rng, 1, 50) for _ in range(300)]   # many constructor argument tuples
     short += [{"fam": "sdt", "ops": [{"op": "new", "n": n}]} for n in (0, 1, 35, 36)]
+    for n in (255, 256, 4095, 4096, 65535, 65536, 70000):       # declared lengths across the byte boundaries of the Length field
+        short.append({"fam": "sdt", "ops": [{"op": "new", "n": n}, {"op": "append", "v": [1, 2]}, {"op": "write", "v": [9], "off": n - 1},
+                                             {"op": "write", "v": [9, 9], "off": n + 1}, {"op": "append_slice", "v": [7] * 5}]})
     programs += short
     programs += big_histories(th)
     ctx.samples.append({"fam": "sdt", "ops": programs[-310]["ops"][:5]})
